@@ -267,7 +267,8 @@ static void run_request(const std::string& ep, long a, long b, long c, long d, l
 	{
 		// values at the bracket ends [1,3]: patterns -+,+-,++,--,0+,+0,00,N.,.N
 		static const double L[9] = {-1, 1, 1, -1, 0, 1, 0, NAN, 1}, R[9] = {1, -1, 2, -2, 1, 0, 0, 1, NAN};
-		double fl = L[a], fr = R[a];
+		static const double MAG[4] = {1.0, 1e-170, 1e170, 1e-310};
+		double fl = L[a] * MAG[b], fr = R[a] * MAG[b];
 		auto f = [fl, fr](double x) { return fl + (fr - fl) * (x - 1.0) / 2.0; };
 		sink   = Find_Root(f, 1.0, 3.0, 1e-8);
 	}
